@@ -138,8 +138,9 @@ MUTANTS += [
     dict(prop="C05", name="cached-fields-not-indexed", file=LZ,
          old="            new_computed = {key: value[idx] for key, value in self._computed_values.items()}",
          new="            new_computed = {key: value for key, value in self._computed_values.items()}"),
-    dict(prop="C05", name="replace-keeps-stale-cache", file=LZ,
-         old="            return self.__class__(self._itemgetter, new_dict)\n", new="            return self.__class__(self._itemgetter, new_dict, dict(self._computed_values))\n"),
+    dict(prop="C05", name="replace-drops-earlier-replacements", file=LZ,
+         old="            new_dict = {key: value for key, value in self._set_values.items()}\n            new_dict.update(kwargs)",
+         new="            new_dict = dict(kwargs)"),
     dict(prop="C05", name="setattr-keeps-assembled-table", file=LZ,
          old="            self._computed = False\n            self._data = None\n", new=""),
     dict(prop="C05", name="lazy-modified-write-pos-not-shifted", file=VB,
